@@ -162,6 +162,7 @@ def rule_b(ctx, raws):
             if lab == 'true' and cn and m is not cn[0]:
               if g.can_skip(m, lambda k: k is cn[0], to=topo_tests[0] if topo_tests else None):
                 problems.append('value parented elsewhere can skip the clone')
+  problems += relocate_identity_problems(f)
   ctx.ob('C01.b', f.fq, not problems,
          'relocation: clone when parented elsewhere, then set path = '
          'KeyPath(key, self.sym_path) and parent = _sym_parent_for_children() '
@@ -345,6 +346,26 @@ def _iterates_all_items(m, it):
     return bool(defs) and all(v is not None and not (isinstance(v, ast.Name) and v.id == it.id)
                               and _iterates_all_items(m, v) for v in defs)
   return False
+
+
+def relocate_identity_problems(f):
+  """"Parented elsewhere" is an identity question: containers compare by value,
+  so an equal-but-different parent (original vs fresh clone) must not pass for
+  self.  Shared with C07 (independence of a clone)."""
+  problems = []
+  cmp_self = []
+  for n in ast.walk(f.node):
+    if isinstance(n, ast.Compare) and len(n.ops) == 1:
+      l, r = A.unparse(n.left), A.unparse(n.comparators[0])
+      if (l.endswith('.sym_parent') and r == 'self') or (r.endswith('.sym_parent') and l == 'self'):
+        cmp_self.append(n)
+  if not cmp_self:
+    problems.append('the parent of the inserted value is never compared with self')
+  for n in cmp_self:
+    if not isinstance(n.ops[0], (ast.Is, ast.IsNot)):
+      problems.append(f'`{A.unparse(n)}` compares the parent with self by value, not identity: a node owned by an '
+                      f'equal-but-different container is adopted without a copy and ends up with two owners')
+  return problems
 
 
 def rule_g(ctx):
